@@ -85,5 +85,5 @@ package sessions
 // ---- C02: the cookie cipher is keyed with the whole cookie secret -------------------------------------------------
 //@ func CreateMiscreantCookieCipher$1(s *CookieStore) error
 //@   modifies s.CookieCipher
-//@   ensures [C02] whole_secret_is_the_key: result == nil ==> called(@NewMiscreantCipher#1) && arg(@NewMiscreantCipher#1, 0) == cookieSecret && @NewMiscreantCipher#1.1 == nil && s.CookieCipher != nil
+//@   ensures [C02] whole_secret_is_the_key: result == nil ==> called(@NewMiscreantCipher#1) && arg(@NewMiscreantCipher#1, 0) == old(cookieSecret) && @NewMiscreantCipher#1.1 == nil && s.CookieCipher != nil
 //@   ensures [C02] no_cipher_on_error: result != nil ==> s.CookieCipher == old(s.CookieCipher)
